@@ -23,13 +23,13 @@ Theorem C01_codec_roundtrip :
     float_text_ok fmt_float -> float_roundtrip fmt_float parse_float -> time_parse_extends parse_time ->
     inner_ok any_inner ->
     forall root m txt,
-      rep_root any_inner env root m -> encode fmt_float any_inner env root m = Ok txt ->
+      rep_root any_inner print None env root m -> encode fmt_float any_inner env root m = Ok txt ->
       exists J, strict_parse txt = Some J /\
         (N.of_nat (jnest J) <= max_nesting ->
-         exists m', decode_tree (dec_scalar parse_float parse_time) print false env root J = Ok m' /\ equiv_root any_inner print env root m m').
+         exists m', decode_tree (dec_scalar parse_float parse_time) print false None env root J = Ok m' /\ equiv_root any_inner print None env root m m').
 Proof.
   intros fmt_float any_inner parse_float parse_time env Hflat Hnames Hfok Hfrt Htime Hinner.
-  exact (codec_roundtrip fmt_float any_inner (dec_scalar parse_float parse_time) print print_nonempty false env Hflat Hnames
+  exact (codec_roundtrip fmt_float any_inner (dec_scalar parse_float parse_time) print print_nonempty false None env Hflat Hnames
            (scalar_rt_own fmt_float parse_float parse_time Hfok Hfrt Htime) Hinner).
 Qed.
 Print Assumptions C01_codec_roundtrip.
@@ -56,24 +56,24 @@ Theorem C01_full_statement :
     oneofs_flat env -> oneof_names_ok env ->
     float_text_ok fmt_float -> float_roundtrip fmt_float parse_float -> time_parse_extends parse_time ->
     inner_ok any_inner ->
-    forall root m, rep_root any_inner env root m ->
+    forall root m, rep_root any_inner print None env root m ->
       exists txt J, encode fmt_float any_inner env root m = Ok txt /\ strict_parse txt = Some J /\
         (N.of_nat (jnest J) <= max_nesting ->
-         exists m', decode_tree (dec_scalar parse_float parse_time) print false env root J = Ok m' /\ equiv_root any_inner print env root m m').
+         exists m', decode_tree (dec_scalar parse_float parse_time) print false None env root J = Ok m' /\ equiv_root any_inner print None env root m m').
 Proof.
   intros fmt_float any_inner parse_float parse_time env Hflat Hnames Hfok Hfrt Htime Hinner.
-  exact (codec_full fmt_float any_inner (dec_scalar parse_float parse_time) env Hflat
-           (scalar_rt_own fmt_float parse_float parse_time Hfok Hfrt Htime) Hnames Hinner print print_nonempty false).
+  exact (codec_full fmt_float any_inner (dec_scalar parse_float parse_time) print None env Hflat
+           (scalar_rt_own fmt_float parse_float parse_time Hfok Hfrt Htime) Hnames Hinner print_nonempty false).
 Qed.
 Print Assumptions C01_full_statement.
 Theorem C01_encode_succeeds :
   forall fmt_float any_inner parse_float parse_time env,
     oneofs_flat env -> float_text_ok fmt_float -> float_roundtrip fmt_float parse_float ->
     time_parse_extends parse_time ->
-    forall root m, rep_root any_inner env root m -> exists txt, encode fmt_float any_inner env root m = Ok txt.
+    forall root m, rep_root any_inner print None env root m -> exists txt, encode fmt_float any_inner env root m = Ok txt.
 Proof.
   intros fmt_float any_inner parse_float parse_time env Hflat Hfok Hfrt Htime.
-  exact (encode_total fmt_float any_inner (dec_scalar parse_float parse_time) env Hflat
+  exact (encode_total fmt_float any_inner (dec_scalar parse_float parse_time) print None env Hflat
            (scalar_rt_own fmt_float parse_float parse_time Hfok Hfrt Htime)).
 Qed.
 Print Assumptions C01_encode_succeeds.
@@ -91,11 +91,11 @@ Theorem C01_full_statement_dec :
     oneofs_flat env -> oneof_names_ok env -> env_items_ok env ->
     float_text_ok fmt_float -> orc_float_ok fmt_float orc -> orc_time_ok orc -> orc_decimal_ok orc ->
     inner_ok any_inner ->
-    forall root m, rep_root any_inner env root m ->
+    forall root m, rep_root any_inner raw_dec None env root m ->
       exists txt J, encode fmt_float any_inner env root m = Ok txt /\ strict_parse txt = Some J /\
         (CodecDecTree.jdepth J <= CodecDec.max_scan_depth ->
          exists m', CodecDecTree.tr_decode orc env (S (CodecDecTree.jsize J)) root J = Ok m' /\
-                    equiv_root any_inner raw_dec env root m m').
+                    equiv_root any_inner raw_dec None env root m m').
 Proof. exact codec_full_dec. Qed.
 Print Assumptions C01_full_statement_dec.
 (* ... and on the encoder's TEXT through the decoder family's byte-level model: the tokenizer
@@ -106,11 +106,11 @@ Theorem C01_full_statement_bytes :
     oneofs_flat env -> oneof_names_ok env -> env_items_ok env ->
     float_text_ok fmt_float -> orc_float_ok fmt_float orc -> orc_time_ok orc -> orc_decimal_ok orc ->
     inner_ok any_inner ->
-    forall root m, rep_root any_inner env root m ->
+    forall root m, rep_root any_inner raw_dec None env root m ->
       exists txt J, encode fmt_float any_inner env root m = Ok txt /\ txt = print J /\ wfb J = true /\
         (CodecDecTree.jdepth J <= CodecDec.max_scan_depth ->
          exists m', CodecDec.decode_bytes orc env root txt = Ok m' /\
-                    equiv_root any_inner raw_dec env root m m').
+                    equiv_root any_inner raw_dec None env root m m').
 Proof. exact codec_full_bytes. Qed.
 Print Assumptions C01_full_statement_bytes.
 (* the same with the decoder family's oracle MODELS as premises: time.Parse is that family's model of
@@ -123,11 +123,11 @@ Theorem C01_full_statement_bytes_oracle_models :
     J5V.proofs.CodecDecTime.time_oracle_is_model orc ->
     J5V.proofs.CodecDecDecimal.decimal_oracle_is_model orc ->
     inner_ok any_inner ->
-    forall root m, rep_root any_inner env root m ->
+    forall root m, rep_root any_inner raw_dec None env root m ->
       exists txt J, encode fmt_float any_inner env root m = Ok txt /\ txt = print J /\ wfb J = true /\
         (CodecDecTree.jdepth J <= CodecDec.max_scan_depth ->
          exists m', CodecDec.decode_bytes orc env root txt = Ok m' /\
-                    equiv_root any_inner raw_dec env root m m').
+                    equiv_root any_inner raw_dec None env root m m').
 Proof.
   intros fmt_float any_inner orc env Hflat Hnames Hitems Hfok Hfl Ht Hd Hinner.
   exact (codec_full_bytes fmt_float any_inner orc env Hflat Hnames Hitems Hfok Hfl
@@ -146,7 +146,7 @@ Print Assumptions C01_dec_premises_satisfiable.
 Theorem C01_decoder_models_agree :
   forall (orc : CodecDecScalar.oracles) env, env_items_ok env ->
     forall root J m', CodecDecTree.jdepth J <= CodecDec.max_scan_depth ->
-      decode_tree (dsc_dec orc) raw_dec true env root J = Ok m' ->
+      decode_tree (dsc_dec orc) raw_dec true None env root J = Ok m' ->
       CodecDecTree.tr_decode orc env (S (CodecDecTree.jsize J)) root J = Ok m'.
 Proof. exact decode_tree_sim. Qed.
 Print Assumptions C01_decoder_models_agree.
@@ -249,9 +249,9 @@ Definition rt_tree : jvalue := Eval vm_compute in
   match strict_parse rt_txt with Some j => j | None => JNull end.
 
 Example C01_roundtrip_example :
-  oneofs_flat rt_env /\ oneof_names_ok rt_env /\ rep_root rt_inner rt_env [82] rt_msg /\
+  oneofs_flat rt_env /\ oneof_names_ok rt_env /\ rep_root rt_inner print None rt_env [82] rt_msg /\
   encode rt_fmt rt_inner rt_env [82] rt_msg = Ok rt_txt /\ strict_parse rt_txt = Some rt_tree /\
-  decode_tree (dec_scalar rt_pf rt_pt) print false rt_env [82] rt_tree = Ok rt_msg.
+  decode_tree (dec_scalar rt_pf rt_pt) print false None rt_env [82] rt_tree = Ok rt_msg.
 Proof.
   split; [apply oneofs_flat_b_sound; vm_compute; reflexivity|].
   split; [apply oneof_names_ok_b_sound; vm_compute; reflexivity|].
